@@ -7,11 +7,15 @@ SPEC = {
     'functions_of_interest': ['threadsafe_mem_leak', 'MemLeakScopedMutex', 'ScopedMutexLock', 'SimpleMutex', 'turnOn', 'turnOff', 'mem_leak_'],
     'assumptions': ['INTERLEAVINGS ARE NOT EXPLORED: the solver decides lock coverage, lock release and the all-together table switch of each real wrapper; "every access under one correct mutex => every concurrent run is equivalent to a sequential one" is the assumed textbook step (then C04-C06 apply)',
                     'mutex = held flag with lock/unlock/error counters; in the translated world the detector operations are contract stubs that observe the lock, the real build runs the real detector',
-                    'the misuse-report path (longjmp out of the locked region) is the open known finding KF-C10-1'],
+                    'group plat: pthread_mutex_lock/unlock are recording models; the platform mutex operations are reached through the PlatformSpecificMutex* pointers as initialised by the platform file (h_env_install not called)', 'the misuse-report path (longjmp out of the locked region) is the open known finding KF-C10-1'],
     'groups': [{
         'name': 'ts', 'wrapper': 'w10.cpp', 'harness': 'h10.c',
         'config': {'memleak': True, 'stubs': STUBS, 'heapcheck': False, 'empty_regex': ['^_ZN[0-9]+[A-Za-z]*FailureC[12]E', '^_ZN[0-9]+[A-Za-z]*FailureD[012]E'], 'defines': ['-DCPPUTEST_VERIF_HASH_TABLE_SIZE=4']},
         'obligations': [{'fn': 'harness_entry_%d_%d' % (k, m), 'unwind': 40, 'timeout': 600, 'diff_runs': 20, 'optional_witness': ['exit path', 'skipped', 'end'], 'bounds': 'entry point %s, one call, overload mode %s' % (N[k], ('off', 'default (not thread-safe)', 'thread-safe', 'thread-safe, restored after saveAndDisable/restore')[m])} for k in (0, 2, 3, 5, 6, 7, 8, 9, 10) for m in range(4)] + [
             {'fn': 'finding_misuse_leaves_lock_held', 'unwind': 40, 'timeout': 900, 'expect': 'fail', 'optional_witness': ['end'], 'bounds': 'thread-safe mode; free() of a foreign address (misuse) reported through the real MemoryLeakWarningReporter'}],
+    }, {
+        'name': 'plat', 'wrapper': 'wplat.cpp', 'harness': 'h10p.c',
+        'config': {'heapcheck': False},
+        'obligations': [{'fn': 'harness_platform_mutex', 'unwind': 5, 'timeout': 300, 'diff_runs': 20, 'bounds': 'the default PlatformSpecificMutexLock/Unlock of src/Platforms/Gcc/UtestPlatform.cpp on either of two mutex objects, 1..3 lock/unlock rounds; pthread_mutex_lock/unlock are recording models (held flag per object)'}],
     }],
 }
